@@ -50,7 +50,7 @@ def serde_zst(pid, tier, seed, workdir, stats):
 def miri_support(pid, tier, seed, workdir, stats):
     """Supporting validation for the machine-level part of C02 (NOT proof, thorough tier only): a reduced set of
     generated histories is executed on the real collections under Miri (Stacked Borrows, uninitialised reads,
-    out-of-bounds and misaligned accesses, leaks of freed memory). Undefined behaviour reported by Miri is a
+    out-of-bounds and misaligned accesses, use after free). Undefined behaviour reported by Miri is a
     violation with the history as replay; Miri's observations must also equal the native portable build's."""
     if tier != "thorough":
         return
@@ -60,7 +60,7 @@ def miri_support(pid, tier, seed, workdir, stats):
         stats["notes"].append("Miri not available in this sandbox: machine-level supporting validation skipped")
         return
     tdir = os.path.join(core.CACHE, "target-miri")
-    env = dict(core.ENV, CARGO_TARGET_DIR=tdir, MIRIFLAGS="-Zmiri-disable-isolation", RUSTFLAGS="--cfg hashbrown_verif")
+    env = dict(core.ENV, CARGO_TARGET_DIR=tdir, MIRIFLAGS="-Zmiri-disable-isolation -Zmiri-ignore-leaks", RUSTFLAGS="--cfg hashbrown_verif")
     jobs = []
     for i, profile in enumerate(("mixed", "table", "set", "iter", "entry-full", "reserve", "saturate", "clone")):
         prefix = os.path.join(workdir, "miri-" + profile)
@@ -85,9 +85,11 @@ def miri_support(pid, tier, seed, workdir, stats):
         want = [l.rstrip() for l in open(prefix + ".real").read().split("\n")]
         stats["evaluations"] += len(got)
         stats["batches"].append(dict(backend="miri", gen="gen %s (2 scenarios, supporting validation)" % profile, lines=len(got)))
-        if "Undefined Behavior" in err or "error: memory leaked" in err:
-            k = err.find("Undefined Behavior") if "Undefined Behavior" in err else err.find("error: memory leaked")
-            raise Violation("Miri reports undefined behaviour / leak while the real collections execute a generated history (profile %s)" % profile,
+        # (leaks are not judged here: generated histories forget drains on purpose, which leaks by design; the
+        # ownership and allocator ledgers judge leaks with that knowledge)
+        if "Undefined Behavior" in err:
+            k = err.find("Undefined Behavior")
+            raise Violation("Miri reports undefined behaviour while the real collections execute a generated history (profile %s)" % profile,
                             "# " + err[max(0, k - 300):k + 2500].replace("\n", "\n# ") + "\n" + open(prefix + ".ops").read(), True)
         if rc != 0:
             stats["notes"].append("Miri run of profile %s ended with exit %d without a UB report: %s" % (profile, rc, err[-300:].replace("\n", " ")))
@@ -298,7 +300,7 @@ PROPS = {
              "insertion result, an owning iterator after k steps, or a Drain leaves a table with the API invariant from which ANY "
              "further history is safe (leak_then_any_history_safe); scope guards are never handed to the user. "
              "Thorough tier adds a reduced set of generated histories executed under Miri (supporting validation of the "
-             "machine level, not proof): a Miri UB/leak report or a Miri-vs-native difference is reported with the history.",
+             "machine level, not proof): a Miri UB report or a Miri-vs-native difference is reported with the history.",
     ),
     "C03": dict(
         module="Hb.Props.C03",
